@@ -190,7 +190,8 @@ class Framer(tasking.Tasker):
             self.exitAll()
 
         for frame in self.frameNames.values():
-            prunables = [aux for aux in frame.auxes if aux.insular]
+            # clones nested in this clone, named ones too, die with it and free their names
+            prunables = [aux for aux in frame.auxes if aux.insular or not aux.original]
             for aux in prunables:
                 aux.prune()
                 frame.auxes.remove(aux)
